@@ -767,6 +767,13 @@ inline void Transport::sendAsync(SessionId sid, iora::core::BufferView data,
 inline ConnectResult Transport::connectSync(const std::string &host, std::uint16_t port,
                                             TlsMode tls, std::chrono::milliseconds timeout)
 {
+  return connectSyncNamed(host, port, tls, timeout, std::string());
+}
+
+inline ConnectResult Transport::connectSyncNamed(const std::string &host, std::uint16_t port,
+                                                 TlsMode tls, std::chrono::milliseconds timeout,
+                                                 const std::string &serverName)
+{
   // Guard on thread-identity ALONE (HR-5/DQ-4): getIoThreadId()==_loop.get_id() is
   // the default std::thread::id pre-start/post-detach, so it matches only the real
   // running I/O thread. Dropping the isRunning() conjunct closes the window where
@@ -808,7 +815,8 @@ inline ConnectResult Transport::connectSync(const std::string &host, std::uint16
       TransportErrorInfo{TransportError::ShuttingDown, "transport shutting down"});
   }
 
-  auto result = _impl->engine->connect(host, port, tls);
+  auto result = serverName.empty() ? _impl->engine->connect(host, port, tls)
+                                   : _impl->engine->connectNamed(host, port, tls, serverName);
   if (result.isErr())
   {
     // Defensive: the current TcpEngine::connect() always returns ok(sid) and
